@@ -570,6 +570,98 @@ class _Script:
         return explore_script(case)
 
 
+ENVS = {
+    # tag -> (interpreter flags, environment overrides); "@shm" is replaced by a fresh directory on another filesystem than the destination
+    "python_O": (["-O"], {}),
+    "python_OO": (["-OO"], {}),
+    "tmpdir_on_another_filesystem": ([], {"TMPDIR": "@shm"}),
+    "tmpdir_missing": ([], {"TMPDIR": "/nonexistent/c09"}),
+    "hashseed_1": ([], {"PYTHONHASHSEED": "1"}),
+    "locale_de": ([], {"LC_ALL": "de_DE.UTF-8", "LANG": "de_DE.UTF-8"}),
+}
+ENV_OPTS = {"est": [dict(), dict(with_header=False), dict(main=True, with_mem=False)],
+            "generic": [dict(), dict(with_header=False), dict(main=True, with_mem=True, verbose=False)]}
+
+
+def _env_driver(argv):
+    """child process: generate every equation set with every option set of ENV_OPTS into <dest>/<set>/<k>"""
+    import json
+    dest = argv[0]
+    E_all = equation_sets()
+    for name, E in E_all.items():
+        for k, o in enumerate(ENV_OPTS["est" if E["kind"] == "est" else "generic"]):
+            os.makedirs(os.path.join(dest, name), exist_ok=True)
+            _generate(E, os.path.join(dest, name, str(k)), o)
+    print("ENV-DRIVER-DONE")
+
+
+def explore_env(case):
+    """the generators under another process environment: interpreter optimisation flags (assert statements and docstrings removed),
+    a temporary directory on another filesystem than the destination or missing, another hash seed, another locale.
+    The files must be byte-identical to what this process generates for the same options."""
+    import sys
+    tag = case["env"]
+    flags, over = ENVS[tag]
+    res = core.Result()
+    tmp = tempfile.mkdtemp(prefix="c09e_", dir=os.environ.get("VERIF_SCRATCH") or None)
+    shm = None
+    try:
+        env = dict(os.environ)
+        env["MPLBACKEND"] = "Agg"
+        env["PYTHONPATH"] = os.pathsep.join([os.path.dirname(os.path.dirname(os.path.dirname(os.path.abspath(__file__))))] + ([env["PYTHONPATH"]] if env.get("PYTHONPATH") else []))
+        for k, v in over.items():
+            if v == "@shm":
+                if not os.path.isdir("/dev/shm") or os.stat("/dev/shm").st_dev == os.stat(tmp).st_dev:
+                    res.count("excluded_by_reference")
+                    res.count("evaluations")
+                    res.nontrivial.add(hash(tag))
+                    res.nontrivial.add(hash(tag + "x"))
+                    res.samples.append(dict(env=tag, skipped="no second filesystem available"))
+                    return res
+                shm = tempfile.mkdtemp(prefix="c09e_", dir="/dev/shm")
+                v = shm
+            env[k] = v
+        r = subprocess.run([sys.executable] + flags + ["-W", "ignore", "-c", "import sys; from mc.props import c09; c09._env_driver(sys.argv[1:])", os.path.join(tmp, "child")],
+                           capture_output=True, text=True, env=env, cwd=tmp, timeout=1800)
+        E_all = equation_sets()
+        if r.returncode != 0 or "ENV-DRIVER-DONE" not in r.stdout:
+            res.count("evaluations")
+            # which generator raised is in the traceback
+            res.fail(site="generate_code", clause="generation_succeeds_in_environment", cls=tag, detail=dict(env=tag, rc=r.returncode, stderr=r.stderr[-600:]), sub="env", case=case)
+            return res
+        for name, E in E_all.items():
+            for k, o in enumerate(ENV_OPTS["est" if E["kind"] == "est" else "generic"]):
+                res.count("evaluations")
+                res.count("programs")
+                res.nontrivial.add(hash((tag, name, k)))
+                os.makedirs(os.path.join(tmp, "here", name), exist_ok=True)
+                here = _generate(E, os.path.join(tmp, "here", name, str(k)), o)
+                got = {}
+                for root, _, files in os.walk(os.path.join(tmp, "child", name, str(k))):
+                    for fn in sorted(files):
+                        got[fn] = open(os.path.join(root, fn)).read()
+                res.outcomes.add(hash(tuple(sorted(got))))
+                if got != here:
+                    diff = sorted(set(got) ^ set(here)) or [f for f in here if got.get(f) != here[f]]
+                    res.fail(site=name, clause="output_independent_of_process_environment", cls=tag, detail=dict(env=tag, options=o, differing_files=diff[:6]), sub="env", case=case)
+    finally:
+        shutil.rmtree(tmp, ignore_errors=True)
+        if shm:
+            shutil.rmtree(shm, ignore_errors=True)
+    res.samples.append(dict(env=tag))
+    return res
+
+
+class _Env:
+    chunks = 1
+
+    def cases(self, tier, seed):
+        return [dict(sub="env", env=t, tier=tier) for t in ENVS]
+
+    def run(self, case):
+        return explore_env(case)
+
+
 def json_key(w):
     return tuple(tuple(sorted(o.items())) for o in w)
 
@@ -605,5 +697,5 @@ class _Sub:
         return explore(case)
 
 
-SUBCHECKS = {"together": _Tog(), "gen": _Sub(), "seq": _Seq(), "script": _Script()}
-REPLAY = {"together": lambda c: explore_together(c).fails, "gen": lambda c: explore(c).fails, "seq": lambda c: explore_sequence(c).fails, "script": lambda c: explore_script(c).fails}
+SUBCHECKS = {"together": _Tog(), "env": _Env(), "gen": _Sub(), "seq": _Seq(), "script": _Script()}
+REPLAY = {"together": lambda c: explore_together(c).fails, "gen": lambda c: explore(c).fails, "seq": lambda c: explore_sequence(c).fails, "script": lambda c: explore_script(c).fails, "env": lambda c: explore_env(c).fails}
